@@ -1,6 +1,7 @@
 package exec
 
 import (
+	"fmt"
 	"go/types"
 
 	"gosym/sym"
@@ -13,7 +14,8 @@ import (
 // bumps the commit counter (conflict detection between concurrent transactions: a transaction
 // that read a key modified after its snapshot fails with ErrConflict). Iterator: forward/reverse
 // over the snapshot merged with pending writes, Seek positions at the first key >= (<= when
-// reversed) the argument. ReadTs = commit counter at the snapshot. TTL is recorded, never expires.
+// reversed) the argument. ReadTs = commit counter at the snapshot. TTL: an entry written with WithTTL(d) at time t0 stops being
+// visible at t0 + d rounded down to a whole second (the phase of the second is a fresh unknown).
 
 const bdgPkg = "github.com/dgraph-io/badger"
 
@@ -22,6 +24,16 @@ type bdgEnt struct {
 	val     []*sym.Term
 	version uint64
 	deleted bool
+	exp     *sym.Term // nil = no TTL; else the instant (ns) from which the entry is expired
+}
+
+// bdgLive decides (branching when symbolic) whether an entry written with a TTL is still visible.
+func (in *interp) bdgLive(e bdgEnt) bool {
+	if e.exp == nil {
+		return true
+	}
+	now := term(in.now().(structure)[1])
+	return in.r.branch(in.ctx.Cmp(sym.OpSLt, now, e.exp), "badger-ttl-live")
 }
 
 type bdgDB struct {
@@ -89,7 +101,7 @@ func (in *interp) bdgView(t *bdgTxn) []bdgEnt {
 	}
 	var out []bdgEnt
 	for _, e := range v {
-		if !e.deleted {
+		if !e.deleted && in.bdgLive(e) {
 			out = append(out, e)
 		}
 	}
@@ -131,26 +143,30 @@ func registerBadger(e *Engine) {
 		t.reads = append(t.reads, k)
 		for i := len(t.pending) - 1; i >= 0; i-- {
 			if in.r.branch(in.bytesEq(t.pending[i].key, k), "badger-pending") {
-				if t.pending[i].deleted {
+				if t.pending[i].deleted || !in.bdgLive(t.pending[i]) {
 					return tuple{(*value)(nil), sentinel(in, "ErrKeyNotFound")}
 				}
 				return tuple{box(&bdgItem{t.pending[i]}), iface{}}
 			}
 		}
 		i, ok := in.bdgFind(t.snap, k)
-		if !ok || t.snap[i].deleted {
+		if !ok || t.snap[i].deleted || !in.bdgLive(t.snap[i]) {
 			return tuple{(*value)(nil), sentinel(in, "ErrKeyNotFound")}
 		}
 		return tuple{box(&bdgItem{t.snap[i]}), iface{}}
 	})
-	write := func(in *interp, t *bdgTxn, k, v []*sym.Term, del bool) value {
+	write := func(in *interp, t *bdgTxn, k, v []*sym.Term, del bool, exp ...*sym.Term) value {
 		if !t.update {
 			return sentinel(in, "ErrReadOnlyTxn")
 		}
 		if len(k) == 0 {
 			return sentinel(in, "ErrEmptyKey")
 		}
-		t.pending = append(t.pending, bdgEnt{key: k, val: v, deleted: del})
+		ent := bdgEnt{key: k, val: v, deleted: del}
+		if len(exp) > 0 {
+			ent.exp = exp[0]
+		}
+		t.pending = append(t.pending, ent)
 		return iface{}
 	}
 	e.reg("(*"+bdgPkg+".Txn).Set", func(in *interp, fr *frame, a []value) value {
@@ -165,9 +181,25 @@ func registerBadger(e *Engine) {
 		var v value = ent
 		return &v
 	})
-	e.reg("(*"+bdgPkg+".Entry).WithTTL", func(in *interp, fr *frame, a []value) value { return a[0] })
+	expIdx := fieldIndex(e.namedType(bdgPkg, "Entry"), "ExpiresAt")
+	e.reg("(*"+bdgPkg+".Entry).WithTTL", func(in *interp, fr *frame, a []value) value {
+		// badger: ExpiresAt = uint64(time.Now().Add(d).Unix()), compared with time.Now().Unix() on reads.
+		// Model (nanoseconds, no division): expired from t0 + d - phase on, phase in [0, 1s) unknown.
+		ent := (*a[0].(*value)).(structure)
+		c := in.ctx
+		in.ttlSeq++
+		phase := c.Var(fmt.Sprintf("ttlphase%d", in.ttlSeq), 64)
+		in.r.assertPC(c.Cmp(sym.OpSLe, c.Const(64, 0), phase))
+		in.r.assertPC(c.Cmp(sym.OpSLt, phase, c.Const(64, 1000000000)))
+		now := term(in.now().(structure)[1])
+		ent[expIdx] = c.Bin(sym.OpSub, c.Bin(sym.OpAdd, now, term(a[1])), phase)
+		return a[0]
+	})
 	e.reg("(*"+bdgPkg+".Txn).SetEntry", func(in *interp, fr *frame, a []value) value {
 		ent := (*a[1].(*value)).(structure)
+		if x := term(ent[expIdx]); !(x.IsConst() && x.Int() == 0) {
+			return write(in, txnOf(a), bytesOf(in, ent[0]), bytesOf(in, ent[1]), false, x)
+		}
 		return write(in, txnOf(a), bytesOf(in, ent[0]), bytesOf(in, ent[1]), false)
 	})
 	e.reg("(*"+bdgPkg+".Txn).Commit", func(in *interp, fr *frame, a []value) value {
